@@ -403,6 +403,10 @@ class Model(object):
     def function(self, mod, name):
         m = self.module(mod)
         if name not in m.functions:
+            # moved to another module of the package and imported back under the same name
+            r = self.resolve_name(m, name) if name in m.imports else None
+            if r and r[0] == "func" and r[1].cls is None:
+                return r[1]
             raise AnalysisError("anchor vanished: function %s.%s not found" % (mod, name))
         return FuncRef(m, None, m.functions[name])
 
